@@ -1,5 +1,6 @@
 /- The mechanism of `Calls.lean` instantiated with the tables generated from the source. -/
 import FordModel.Calls
+import FordModel.CallsScope
 import FordModel.Generated.C08
 namespace Ford.Calls
 
@@ -27,5 +28,16 @@ def precedesAll (stops : List String) : List (String × String) → String → S
     if stops.contains n then false
     else if n == name && g == guard then true
     else precedesAll stops rest name guard
+
+/-- lower-case names of `unit.variables` after `_cleanup`, with the generated EXTERNAL filter -/
+def scopeNames (u : Scope.Unit) : List Str := Scope.scopeVarNames Generated.C08.scopeFilter u
+
+/-- the name tables of the unit's scope as `get_label_item` sees them -/
+def scopeTab (h : Scope.Host) (u : Scope.Unit) : String → List Str := Scope.layer h u (scopeNames u)
+
+/-- the chains of length 1 that `correlate` keeps, over the generated filter, merge order and
+    removed classes -/
+def keptCalls (h : Scope.Host) (u : Scope.Unit) (calls : List Chain) : List Str :=
+  Scope.resolveScope Generated.C08.labelOrder Generated.C08.removedKinds (scopeTab h u) calls
 
 end Ford.Calls
